@@ -44,6 +44,29 @@ Definition host_glyph (s : Z) : Z :=
 Definition dev_glyph (s : Z) : Z :=
   if s =? 0 then BLOCK_DEV else if s =? 1 then 35 else if s =? 2 then 124 else 46.
 
+(* the spellings the codes stand for (harness: ALIGNS / STYLES lists in the same order), and
+   lookup in the tables regenerated from the source (Gen/LcdTables.v) *)
+Definition align_name (a : Z) : list Z :=
+  if a =? 0 then [108; 101; 102; 116]                          (* left *)
+  else if a =? 1 then [99; 101; 110; 116; 101; 114]            (* center *)
+  else [114; 105; 103; 104; 116].                              (* right *)
+Definition style_name (s : Z) : list Z :=
+  if s =? 0 then [98; 108; 111; 99; 107]                       (* block *)
+  else if s =? 1 then [104; 97; 115; 104]                      (* hash *)
+  else if s =? 2 then [112; 105; 112; 101]                     (* pipe *)
+  else [100; 111; 116].                                        (* dot *)
+Fixpoint text_eqb (a b : list Z) : bool :=
+  match a, b with
+  | [], [] => true
+  | x :: a', y :: b' => (x =? y) && text_eqb a' b'
+  | _, _ => false
+  end.
+Fixpoint assoc (k : list Z) (l : list (list Z * Z)) : option Z :=
+  match l with
+  | [] => None
+  | (k', v) :: r => if text_eqb k k' then Some v else assoc k r
+  end.
+
 (* ---------- the LCD operations of property C17 (animations are C18) ---------- *)
 Inductive lop : Type :=
 | OWrite (col row : Z) (text : list Z) (clear : bool) (align : Z)
